@@ -1754,3 +1754,113 @@ def gen_traj_core():
     return ('trajcore: Trajectory.to_positions (library call, np.mod, the ==1 repair, assignment), positions/displacements/cumulative_displacements properties, '
             '__getitem__, __init__, filter built from positions, center_of_mass statements; no library method of the model is overridden; generated wrap proved '
             'equal to Model.C01.wrapD, in [0, D), a whole-cell translate; generated to_positions proved equal to Model.C15.to_positions', ok, 'ok' if ok else log[-800:])
+
+
+# ---------------------------------------------------------------- unit: loop over symmetry operations of ShapeAnalyzer.find_equivalent_positions (C17)
+def shape_loop_unit():
+    """returns (comparison operator of the selection, (p, q) with the constant added before np.floor equal to p/q)"""
+    from fractions import Fraction
+    tree = _parse('shape.py')
+    f = _find_func(tree, 'ShapeAnalyzer', 'find_equivalent_positions')
+    st = _stmts(f)
+    src = [ast.unparse(s) for s in st]
+    pre = ['lattice = self.lattice', 'spacegroup = self.spacegroup', 'site_coords = site.frac_coords', 'cluster = []']
+    post = ['centered = np.vstack(cluster) - site_coords', 'cart_coords = self.lattice.get_cartesian_coords(centered)', 'return cart_coords']
+    if src[:4] != pre or src[5:] != post or not isinstance(st[4], ast.For):
+        raise Unsupported('find_equivalent_positions: statements around the loop: ' + ' | '.join(src[:4] + src[5:])[:300])
+    loop = st[4]
+    if ast.unparse(loop.target) != 'op' or ast.unparse(loop.iter) != 'spacegroup' or loop.orelse:
+        raise Unsupported('find_equivalent_positions: loop header')
+    body = [ast.unparse(s) for s in loop.body]
+    want = ['sym_coords = op.operate(site_coords)', 'dists = lattice.get_all_distances(sym_coords, positions)', None, 'close = positions[sel.flatten()]',
+            None, 'inversed = op.inverse.operate_multi(close)', 'cluster.append(inversed)']
+    if len(body) != len(want) or any(w is not None and w != b for w, b in zip(want, body)):
+        k = next((i for i, (w, b) in enumerate(zip(want, body)) if w is not None and w != b), len(body))
+        raise Unsupported('find_equivalent_positions loop statement %d: %s' % (k, body[k][:120] if k < len(body) else '<missing>'))
+    sel = loop.body[2]
+    if not (isinstance(sel, ast.Assign) and ast.unparse(sel.targets[0]) == 'sel' and isinstance(sel.value, ast.Compare) and len(sel.value.ops) == 1
+            and ast.unparse(sel.value.left) == 'dists' and ast.unparse(sel.value.comparators[0]) == 'radius'):
+        raise Unsupported('selection: ' + body[2])
+    cmpop = {ast.Lt: '<?', ast.LtE: '<=?'}.get(type(sel.value.ops[0]))
+    if cmpop is None:
+        raise Unsupported('selection operator: ' + body[2])
+    sh = loop.body[4]
+    if not (isinstance(sh, ast.AugAssign) and isinstance(sh.op, ast.Sub) and ast.unparse(sh.target) == 'close' and isinstance(sh.value, ast.Call)
+            and ast.unparse(sh.value.func) == 'np.floor' and len(sh.value.args) == 1 and not sh.value.keywords):
+        raise Unsupported('re-imaging statement: ' + body[4])
+    e = sh.value.args[0]
+    if not (isinstance(e, ast.BinOp) and isinstance(e.op, ast.Add) and ast.unparse(e.left) == 'close - sym_coords' and isinstance(e.right, ast.Constant)
+            and isinstance(e.right.value, (int, float))):
+        raise Unsupported('re-imaging expression: ' + ast.unparse(e))
+    c = Fraction(e.right.value)          # exact value of the float literal
+    if c.denominator > 1024:
+        raise Unsupported('re-imaging constant is not a small dyadic number: %r' % e.right.value)
+    return cmpop, (c.numerator, c.denominator)
+
+
+def gen_shape_loop():
+    os.makedirs(GEN, exist_ok=True)
+    try:
+        cmpop, (p, q) = shape_loop_unit()
+    except Unsupported as e:
+        return ('shapeloop', False, f'translator: unsupported {e}')
+    lines = ['(* GENERATED from /repo/src/gemdat/shape.py (ShapeAnalyzer.find_equivalent_positions) on every run -- do not edit *)',
+             'From GV Require Import Base.Prelude Model.C01 Model.Geom Proofs.Geom Model.C17 Proofs.C17.',
+             'Section G.',
+             '  Variable D : Z.',
+             '  Variable G : gram.',
+             '  Variable K : Z.',
+             '  Variable r2 : Z * Z.',
+             '  (* sel = dists < radius   (squared minimum-image distance against radius^2 = fst r2 / snd r2) *)',
+             f'  Definition gen_selected (sym p : V3) : bool := min_image_d2 D G K (vsub3 p sym) * snd r2 {cmpop} fst r2.',
+             '  (* close -= np.floor(close - sym_coords + c), one component; numerators over D, c = p/q *)',
+             f'  Definition gen_shift (c s : Z) : Z := c - D * (({q} * (c - s) + {p} * D) / ({q} * D)).',
+             '  Definition gen_shift3 (c s : V3) : V3 :=',
+             "    let '(c1, c2, c3) := c in let '(s1, s2, s3) := s in (gen_shift c1 s1, gen_shift c2 s2, gen_shift c3 s3).",
+             '  (* one selected position: inversed = op.inverse.operate_multi(close) ... centered = inversed - site_coords *)',
+             '  Definition gen_point (o inv : symop) (site p : V3) : V3 :=',
+             '    let sym := apply_op o site in vsub3 (apply_op inv (gen_shift3 p sym)) site.',
+             '  (* the loop body for one operation, and the loop with np.vstack *)',
+             '  Definition gen_points_op (o inv : symop) (site : V3) (positions : list V3) : list V3 :=',
+             '    let sym := apply_op o site in map (gen_point o inv site) (filter (gen_selected sym) positions).',
+             '  Definition gen_points (ops : list (symop * symop)) (site : V3) (positions : list V3) : list V3 :=',
+             '    flat_map (fun oi => gen_points_op (fst oi) (snd oi) site positions) ops.',
+             '  (* op.inverse of x |-> W x + w is x |-> W^-1 x - W^-1 w *)',
+             '  Definition inverse_of (o inv : symop) : Prop := is_inverse (W inv) (W o) = true /\\ wt inv = vneg3 (mulv (W inv) (wt o)).',
+             '',
+             '  Theorem gen_selected_is_model : forall sym p, gen_selected sym p = selected D G K r2 sym p.',
+             '  Proof. reflexivity. Qed.',
+             '  Lemma gen_shift_reim : forall c s, gen_shift c s = s + reim D (c - s).',
+             '  Proof. intros c s. unfold gen_shift, reim. replace (1 * D) with D by ring. ring. Qed.',
+             '  Lemma gen_shift3_reimage : forall c s, gen_shift3 c s = vadd3 s (reimage D (vsub3 c s)).',
+             '  Proof. intros c s. dv c; dv s. cbn [gen_shift3 vsub3 reimage vadd3]. rewrite !gen_shift_reim. reflexivity. Qed.',
+             '  Theorem gen_point_is_model : forall o inv site p, inverse_of o inv ->',
+             '    gen_point o inv site p = mulv (W inv) (reimage D (vsub3 p (apply_op o site))).',
+             '  Proof.',
+             '    intros o inv site p [Hinv Hw]. unfold gen_point. rewrite gen_shift3_reimage.',
+             '    set (r := reimage D (vsub3 p (apply_op o site))).',
+             '    unfold apply_op. rewrite Hw, !mulv_add, (is_inverse_spec _ _ Hinv).',
+             '    destruct (mulv (W inv) (wt o)) as [[a1 a2] a3]. destruct (mulv (W inv) r) as [[b1 b2] b3]. dv site. veq.',
+             '  Qed.',
+             '  Theorem gen_points_op_is_model : forall o inv site positions, inverse_of o inv ->',
+             '    gen_points_op o inv site positions = points_op D G K r2 o (W inv) site positions.',
+             '  Proof.',
+             '    intros o inv site positions H. unfold gen_points_op, points_op. apply map_ext. intros p. apply gen_point_is_model. exact H.',
+             '  Qed.',
+             '  Theorem gen_points_is_model : forall ops site positions, (forall oi, In oi ops -> inverse_of (fst oi) (snd oi)) ->',
+             '    gen_points ops site positions = points D G K r2 (map (fun oi => (fst oi, W (snd oi))) ops) site positions.',
+             '  Proof.',
+             '    intros ops site positions. induction ops as [|oi ops IH]; intros H; [reflexivity|].',
+             '    unfold gen_points, points in *. cbn [flat_map map fst snd]. rewrite gen_points_op_is_model by (apply H; left; reflexivity).',
+             '    f_equal. apply IH. intros x Hx. apply H. right. exact Hx.',
+             '  Qed.',
+             'End G.',
+             '(* the hypothesis is satisfiable: a four-fold screw operation and its inverse *)',
+             'Example inverse_of_example : inverse_of {| W := W_rot; wt := (50, 0, 25) |} {| W := W_rot_inv; wt := (0, 50, -25) |}.',
+             'Proof. split; vm_compute; reflexivity. Qed.']
+    open(os.path.join(GEN, 'ShapeLoop.v'), 'w').write('\n'.join(lines) + '\n')
+    ok, log = compile_gen('ShapeLoop.v')
+    return ('shapeloop: statements of find_equivalent_positions (operate, get_all_distances, strict selection, boolean-mask copy, re-imaging by floor(x + 1/2), '
+            'inverse operation, vstack, centring, Cartesian conversion); generated selection = Model.C17.selected; generated per-position result (inverse operation '
+            'applied to the re-imaged position, minus the site) proved equal to Model.C17.points for every list of operations paired with their inverses', ok,
+            'ok' if ok else log[-900:])
